@@ -70,6 +70,11 @@ def check_cart(ctx, res, code, regs, version, label, tag, batch, label_rows_defa
     key = 'C04:%s:%s:v%d' % (tag, hx(code)[:48] + ('..%d' % len(code) if len(code) > 24 else ''), version)
     try:
         g = U.make_game(regions=regs, code=code, version=version)
+        if len(code) % 3 == 1:
+            # the code object may come from elsewhere (another cart, a .lua file through `build`) and carry another version number:
+            # the cart's version is the cart's
+            from pico8.lua import lua as lua_
+            g.lua = lua_.Lua.from_lines([code] if code else [], version=(version + 7) % 250 + 1)
     except Exception:
         return
     code1 = b''.join(g.lua.to_lines())
